@@ -44,8 +44,8 @@ CHECKS['C20'] = dict(level='model_checking', engine='gosym', design='4/C20',
    note=_GO_NOTE + ' ASCII only; Scanner line splitting replaced by its documented behaviour; float digit generation and ParseFloat on symbolic text are not executed symbolically.')
 CHECKS['C16'] = dict(level='model_checking', engine='lirsym/llvm', design='4/C16',
    technique='symbolic execution of clang -O0 LLVM IR of bigint.c with all limbs symbolic; z3 bit-vectors at width N, uninterpreted partial products for mul, inductive steps for text accumulation and for the division loop',
-   text='The *_ptr entry points of runtime/core/bigint.c that the compiler calls are executed symbolically on regions of symbolic 64-bit limbs (the full 2^128 / 2^256 operand spaces): add, sub, and, or, xor, not, eq, lt, gt, from/to 64-bit for all four types, 128-bit unsigned mul (schoolbook identity over range-constrained uninterpreted 64x64 products), decimal from_string for short texts with every digit symbolic, one inductive step of the text accumulation (v*base+digit from an arbitrary limb state, bases 10/16/8/2), and div/mod: INIT/STEP/EXIT obligations on the real shift-subtract loop (one iteration from an arbitrary invariant state, bit position symbolic) plus the eight div/mod entry points over the contract of the divider. Counterexamples are replayed through a C driver under ASan/UBSan.',
-   note='Trusted: clang front end (-O0 IR = source), the C optimiser/back end that builds the shipped library, LLVM semantics in lirsym/llvm.py, libc summaries, z3. The induction that turns the loop obligations into quot = numer div denom is a paper argument. Not covered: pow, to_string, 256-bit and signed mul (thorough only), shifts, division by zero.')
+   text='The *_ptr entry points of runtime/core/bigint.c that the compiler calls are executed symbolically on regions of symbolic 64-bit limbs (the full 2^128 / 2^256 operand spaces): add, sub, and, or, xor, not, eq, lt, gt, from/to 64-bit for all four types, 128-bit unsigned mul (schoolbook identity over range-constrained uninterpreted 64x64 products), decimal from_string for short texts with every digit symbolic, one inductive step of the text accumulation (v*base+digit from an arbitrary limb state, bases 10/16/8/2), and div/mod: INIT/STEP/EXIT obligations on the real shift-subtract loop (one iteration from an arbitrary invariant state, bit position symbolic) plus the eight div/mod entry points over the contract of the divider; 256-bit pow: INIT/STEP/EXIT on the real square-and-multiply loop over the contract of the multiply. Counterexamples are replayed through a C driver under ASan/UBSan.',
+   note='Trusted: clang front end (-O0 IR = source), the C optimiser/back end that builds the shipped library, LLVM semantics in lirsym/llvm.py, libc summaries, z3. The induction that turns the loop obligations into quot = numer div denom is a paper argument. Not covered: to_string, 128-bit pow, 256-bit and signed mul (thorough only), shifts, division by zero.')
 CHECKS['C17'] = dict(level='model_checking', engine='lirsym/llvm', design='4/C17',
    technique='symbolic execution of clang -O0 LLVM IR of array.c/map.c over region memory: one inductive step (arrays), bounded histories with symbolic keys (maps), z3',
    text='Dynamic arrays: ONE operation (append incl. realloc growth, get, set, len) from an arbitrary valid state with symbolic index / element; the solver decides the list-abstraction step and refusal of out-of-range requests, every access inside a live region. Maps: new_i32/new_i64, a concrete prefix (none, 12 spread keys so the next insert crosses the resize threshold, or 3-4 keys forming ONE hash chain), then 1-2 sets with symbolic keys / values (insert or overwrite at any chain position) and get / size / full iteration with a symbolic query key, against an abstract map over the same terms; the hash of a symbolic key is an uninterpreted function agreeing with FNV-1a on the concrete keys.',
